@@ -333,6 +333,17 @@ func runC14(c *Ctx) {
 				rep.Violation("C14/WritePublicKeyToHex/length", fmt.Sprint(len(hx)), w(nil))
 			}
 			rep.Eval("pubhex/" + k.cls)
+			// the other spelling the reader has always taken — bare X||Y, as other SM2 tools print a public key — must name
+			// the same key as the marked form
+			if len(hx) == 130 {
+				bare := hx[2:]
+				var pb2 *sm2.PublicKey
+				var e2 error
+				if pi := mon.Guard(func() { pb2, e2 = gx509.ReadPublicKeyFromHex(bare) }); pi != nil || e2 != nil || !samePub(pb2, k) {
+					rep.Violation("C14/PublicKeyHex/bare-XY-form-disagrees-with-marked-form/x-top-byte="+bare[:2], fmt.Sprint(pi, e2), w(map[string]interface{}{"hex": bare}))
+				}
+				rep.Eval("pubhex-bare/" + k.cls)
+			}
 		}
 		// --- compressed point
 		{
